@@ -1,7 +1,7 @@
 (* Properties_C12.v — C12: OCP cost, adjoint gradient and masked Riccati (Gauss-Newton) step are exact.
    Only theorem statements closed by `exact`, each followed by Print Assumptions, plus non-vacuity examples. *)
 From Coq Require Import Reals List ZArith Lra Arith Lia Sorting.Sorted Sorting.Permutation.
-From Alpaqa Require Import Num NumR Vec Ocp OcpProofs OcpMinProofs.
+From Alpaqa Require Import Num NumR Vec Ocp OcpProofs OcpMinProofs OcpGenLib OcpGen OcpGenEq.
 Import ListNotations.
 
 (* ---- (1) index sets: for EVERY mask, horizon, width and stage: J ascending, K ascending, J = the free components,
@@ -129,6 +129,86 @@ Theorem C12_riccati_step_is_unique_minimiser : forall lsolve nx nu sts QN qN,
 Proof. exact riccati_step_unique_minimiser. Qed.
 Print Assumptions C12_riccati_step_is_unique_minimiser.
 
+(* ---- (6) the same statements for the code REGENERATED from ocp-vars.hpp / lqr.hpp on every run (coq/gen/OcpGen.v, translator G13).
+        OcpGenEq.v proves every generated piece equal to the piece of Ocp.v the theorems above are about; these are the main ones restated
+        for the generated functions themselves.  F = the problem's member functions, L = the callables handed to the LQR factorisation. *)
+(* the accessors of OCPVariables, as generated, are the layout of (2) *)
+Theorem C12_generated_layout_is_model : forall (F : ocp_fns R) (L : lqr_fns R) lsolve d t,
+  g_xk_off F L lsolve d t = off_x d t /\ g_uk_off F L lsolve d t = off_u d t /\
+  g_hk_off F L lsolve d t = off_h d t /\ g_hk_len F L lsolve d t = len_h d t /\
+  g_ck_off F L lsolve d t = off_c d t /\ g_ck_len F L lsolve d t = len_c d t /\
+  g_qk_off F L lsolve d t = off_q d t /\ g_rk_off F L lsolve d t = off_r d t /\
+  g_create_len F L lsolve d = total_len d /\ g_create_qr_len F L lsolve d = len_qr d.
+Proof. exact g_layout_is_model. Qed.
+Print Assumptions C12_generated_layout_is_model.
+
+(* generated forward on a storage [x0 | u_0 . . . | u_1 . . . | ..] (the other slots hold anything): the storage it leaves and the value
+   it returns are those of Ocp.forward ... *)
+Theorem C12_generated_forward_is_model : forall (F : ocp_fns R) (L : lqr_fns R) lsolve d Dlb Dub DNlb DNub (y μ x0 : list R) us tail,
+  wf_fwd F d -> length us = dN d -> length x0 = dnx d -> fshape d us tail ->
+  g_forward F L lsolve d (x0 ++ tail) Dlb Dub DNlb DNub μ y
+  = (snd (forward (pf_eval_f F) (pf_eval_h F) (pf_eval_h_N F) (pf_eval_l F) (pf_eval_l_N F) (pf_eval_constr F) (pf_eval_constr_N F)
+                  d Dlb Dub DNlb DNub x0 us y μ),
+     fst (forward (pf_eval_f F) (pf_eval_h F) (pf_eval_h_N F) (pf_eval_l F) (pf_eval_l_N F) (pf_eval_constr F) (pf_eval_constr_N F)
+                  d Dlb Dub DNlb DNub x0 us y μ)).
+Proof. intros F L lsolve d Dlb Dub DNlb DNub y μ x0 us tail Hwf. exact (g_forward_eq F L lsolve d Dlb Dub DNlb DNub y μ Hwf x0 us tail). Qed.
+Print Assumptions C12_generated_forward_is_model.
+
+(* ... hence cost = sum of the stage costs, terminal cost and penalty terms along the simulated trajectory *)
+Theorem C12_generated_forward_is_sum : forall (F : ocp_fns R) (L : lqr_fns R) lsolve d Dlb Dub DNlb DNub (y μ x0 : list R) us tail,
+  wf_fwd F d -> length us = dN d -> length x0 = dnx d -> fshape d us tail ->
+  fst (g_forward F L lsolve d (x0 ++ tail) Dlb Dub DNlb DNub μ y)
+  = cost_sum (pf_eval_f F) (pf_eval_h F) (pf_eval_h_N F) (pf_eval_l F) (pf_eval_l_N F) (pf_eval_constr F) (pf_eval_constr_N F)
+             d Dlb Dub DNlb DNub 0 x0 us y μ.
+Proof. exact g_forward_is_sum. Qed.
+Print Assumptions C12_generated_forward_is_sum.
+
+(* generated backward: for problem functions that are the transposed products with Jacobians A_t, B_t, Jc_t (wf_bwd), the gradient blocks
+   it writes pair with every perturbation δu to the first-order change of the cost along the linearised roll-out (gradient = derivative) *)
+Theorem C12_generated_backward_gradient_is_derivative :
+  forall (F : ocp_fns R) (L : lqr_fns R) lsolve d Dlb Dub DNlb DNub (y μ storage : list R) Aof Bof Jcof JcN g qr wx wλ wc,
+  wf_bwd F d Dlb Dub DNlb DNub y μ storage Aof Bof Jcof JcN ->
+  length g = (dN d * dnu d)%nat -> length qr = len_qr d ->
+  length (pf_eval_q_N F (seg (off_x d (dN d)) (dnx d) storage) (seg (off_h d (dN d)) (len_h d (dN d)) storage)) = dnx d ->
+  let ls := map (fun t => lin_of (dnx d) (dnc d) Dlb Dub (stage_of F d y μ storage Aof Bof Jcof t)) (seq 0 (dN d)) in
+  let qN := qN_of (dnx d) (dncN d) DNlb DNub (pf_eval_q_N F (seg (off_x d (dN d)) (dnx d) storage) (seg (off_h d (dN d)) (len_h d (dN d)) storage))
+                  JcN (seg (off_c d (dN d)) (len_c d (dN d)) storage) (seg (dN d * dnc d) (dncN d) y) (seg (dN d * dnc d) (dncN d) μ) in
+  Forall (wf_lin (dnx d) (dnu d)) ls ->
+  forall δus, length δus = dN d -> Forall (fun δu : list R => length δu = dnu d) δus ->
+  exists gs, fst (fst (fst (fst (g_backward F L lsolve d storage g qr Dlb Dub DNlb DNub μ y wx wλ wc)))) = concat gs /\
+             dots gs δus = lin_cost ls qN (vconst (dnx d) 0) δus.
+Proof. exact g_backward_gradient_is_derivative. Qed.
+Print Assumptions C12_generated_backward_gradient_is_derivative.
+
+(* generated factor_masked followed by generated solve_masked (callables adding the masked blocks of the stage data: all_ops): what they leave in
+   Δu_eq is the unique minimiser of the masked subproblem, under the hypotheses of C12_riccati_step_is_unique_minimiser *)
+Theorem C12_generated_riccati_step_is_unique_minimiser :
+  forall (F : ocp_fns R) (L : lqr_fns R) lsolve d nx nu chol sts QN qN P gK e s c y t PA Δx,
+  all_ops L nx 0 sts -> (forall M, lf_Q L (length sts) M = madd M QN) -> lf_q L (length sts) = qN ->
+  Forall (wf2 nx nu) sts -> wfm nx nx QN -> selfadj nx QN -> length qN = nx ->
+  solves_all lsolve nx sts QN qN -> posdef_all lsolve nx sts QN qN ->
+  (length sts <= length gK)%nat -> (length sts <= length e)%nat -> length Δx = (2 * nx)%nat ->
+  let '(_, gK', e', _, _, _, _, _) := g_factor_masked F L lsolve d (length sts) nx nu chol P gK e s c y t PA in
+  exists Δus, fst (fst (g_solve_masked F L lsolve d (length sts) nx nu (concat (map (@sfix R) sts)) Δx gK' e')) = concat Δus /\
+    feasible nu sts Δus /\
+    forall Δus', feasible nu sts Δus' ->
+      obj sts QN qN (vconst nx 0) Δus <= obj sts QN qN (vconst nx 0) Δus' /\
+      (obj sts QN qN (vconst nx 0) Δus' <= obj sts QN qN (vconst nx 0) Δus -> Δus' = Δus).
+Proof. exact g_riccati_step_is_unique_minimiser. Qed.
+Print Assumptions C12_generated_riccati_step_is_unique_minimiser.
+
+(* the generated factor_masked / solve_masked ARE the model's: cost-to-go (P, s), the stored gains, and the step *)
+Theorem C12_generated_riccati_step_is_model :
+  forall (F : ocp_fns R) (L : lqr_fns R) lsolve d nx nu chol sts QN qN P gK e s c y t PA Δx,
+  all_ops L nx 0 sts -> (forall M, lf_Q L (length sts) M = madd M QN) -> lf_q L (length sts) = qN ->
+  Forall (wf_stage nx nu) sts -> wfm nx nx QN -> selfadj nx QN -> length qN = nx -> solves_all lsolve nx sts QN qN ->
+  (length sts <= length gK)%nat -> (length sts <= length e)%nat -> length Δx = (2 * nx)%nat ->
+  let '(_, gK', e', _, _, _, _, _) := g_factor_masked F L lsolve d (length sts) nx nu chol P gK e s c y t PA in
+  fst (fst (g_solve_masked F L lsolve d (length sts) nx nu (concat (map (@sfix R) sts)) Δx gK' e'))
+  = concat (riccati_step lsolve nx sts QN qN).
+Proof. exact g_riccati_step_eq. Qed.
+Print Assumptions C12_generated_riccati_step_is_model.
+
 (* ---- non-vacuity *)
 Example C12_nonvacuous_index :
   index_update (fun t i => nth i (nth t [[true; false; true]; [false; false; false]] []) false) 2 3
@@ -184,4 +264,19 @@ Proof.
     assert (v0 <> 0) by (intro; subst; apply Hv; reflexivity).
     assert (0 < v0 * v0) by nra. nra.
   - constructor; [|constructor]. split; reflexivity.
+Qed.
+
+(* the hypotheses on the generated forward are satisfiable: one stage, nx = nu = 1, no outputs, one stage constraint *)
+Example C12_nonvacuous_generated_forward :
+  let d := {| dN := 1; dnx := 1; dnu := 1; dnh := 0; dnc := 1; dnhN := 0; dncN := 0 |} in
+  let F := {| pf_eval_f := fun _ x u => [nth 0 x 0 + nth 0 u 0]; pf_eval_h := fun _ _ _ => []; pf_eval_h_N := fun _ => [];
+              pf_eval_l := fun _ xu => nth 0 xu 0 * nth 1 xu 0; pf_eval_l_N := fun x => nth 0 x 0;
+              pf_eval_constr := fun _ x => [nth 0 x 0]; pf_eval_constr_N := fun _ => [];
+              pf_eval_qr := fun _ _ _ => []; pf_eval_q_N := fun _ _ => []; pf_eval_grad_f_prod := fun _ _ _ _ => [];
+              pf_eval_grad_constr_prod := fun _ _ _ => []; pf_eval_grad_constr_prod_N := fun _ _ => [] |} in
+  wf_fwd F d /\ fshape d [[2]] [2; 7; 7] /\ length [[2]] = dN d.
+Proof.
+  cbn. split; [|split; [|reflexivity]].
+  - unfold wf_fwd. cbn. repeat split; intros; auto; lia.
+  - exists [], [7], [7], []. cbn. repeat split; reflexivity.
 Qed.
